@@ -18,6 +18,18 @@ theorem varint_roundtrip (v : Nat) (r : List Nat) (h : v < 2 ^ 64) :
 example : readVarint (writeVarint (2 ^ 64 - 1) ++ [7]) = some (2 ^ 64 - 1, [7]) :=
   varint_roundtrip _ _ (by decide)
 
+/-- Unique parsing: the varint is a prefix code (corollary of the round trip). -/
+theorem varint_prefix_free (v w : Nat) (r r' : List Nat) (hv : v < 2 ^ 64) (hw : w < 2 ^ 64)
+    (h : writeVarint v ++ r = writeVarint w ++ r') : v = w ∧ r = r' := by
+  have h1 := varint_roundtrip v r hv
+  rw [h, varint_roundtrip w r' hw] at h1
+  have h2 := Option.some.inj h1
+  exact ⟨(congrArg Prod.fst h2).symm, (congrArg Prod.snd h2).symm⟩
+
+example (r r' : List Nat) (h : writeVarint 255 ++ r = writeVarint 256 ++ r') : False := by
+  have := (varint_prefix_free 255 256 r r' (by decide) (by decide) h).1
+  omega
+
 /-- A varint occupies 1 + (number of significant bytes) bytes, and the number of significant
 bytes of `v` is the least `k` with `v < 256^k` (so 0 ↦ 1 byte, 255 ↦ 2, 256 ↦ 3, 2^64-1 ↦ 9). -/
 theorem varint_length (v : Nat) :
@@ -55,6 +67,31 @@ example : parseFooter (readVarintO Env.dev)
     intro st hst
     simp only [List.mem_cons, List.not_mem_nil, or_false] at hst
     rcases hst with rfl | rfl <;> simp)
+
+/-- The footer determines the directory: two different (well-formed) directories never serialise
+to the same footer bytes, whatever follows them. -/
+theorem directory_injective (d d' : List Stream) (r r' : List Nat)
+    (hlen : d.length < 2 ^ 64) (hlen' : d'.length < 2 ^ 64)
+    (h : ∀ st ∈ d, (∀ b ∈ st.name, b ≠ 0) ∧ st.rawSize < 2 ^ 64 ∧ st.parts.length < 2 ^ 64 ∧
+      ∀ p ∈ st.parts, p.off < 2 ^ 64 ∧ p.size < 2 ^ 64)
+    (h' : ∀ st ∈ d', (∀ b ∈ st.name, b ≠ 0) ∧ st.rawSize < 2 ^ 64 ∧ st.parts.length < 2 ^ 64 ∧
+      ∀ p ∈ st.parts, p.off < 2 ^ 64 ∧ p.size < 2 ^ 64)
+    (he : serializeFooter d ++ r = serializeFooter d' ++ r') : d = d' := by
+  have h1 := directory_roundtrip Env.release d r hlen h
+  rw [he, directory_roundtrip Env.release d' r' hlen' h'] at h1
+  injection h1 with h1
+  exact h1.symm
+
+/-- Non-vacuity: concrete directories meet the hypotheses, so equal footers force equal directories. -/
+example (r r' : List Nat) (d' : List Stream) (hlen' : d'.length < 2 ^ 64)
+    (h' : ∀ st ∈ d', (∀ b ∈ st.name, b ≠ 0) ∧ st.rawSize < 2 ^ 64 ∧ st.parts.length < 2 ^ 64 ∧
+      ∀ p ∈ st.parts, p.off < 2 ^ 64 ∧ p.size < 2 ^ 64)
+    (he : serializeFooter [⟨[97], 3, [⟨0, 2⟩, ⟨2, 1⟩]⟩] ++ r = serializeFooter d' ++ r') :
+    [⟨[97], 3, [⟨0, 2⟩, ⟨2, 1⟩]⟩] = d' :=
+  directory_injective _ _ r r' (by decide) hlen' (by
+    intro st hst
+    simp only [List.mem_cons, List.not_mem_nil, or_false] at hst
+    subst hst; simp) h' he
 
 /-- Registering a name twice returns the same id and changes nothing the second time. -/
 theorem register_idempotent (s : State) (name : List Nat) :
